@@ -8,6 +8,7 @@ cd "$(dirname "$0")"
 /venv/bin/python harness/py2coq_query.py "${VERIF_REPO:-/repo}/tinyflux/queries.py" coq/gen/QueryGen.v || true
 /venv/bin/python harness/py2coq_io.py "${VERIF_REPO:-/repo}/tinyflux/storages.py" coq/gen/IOGen.v || true
 /venv/bin/python harness/py2coq_index.py "${VERIF_REPO:-/repo}/tinyflux/index.py" coq/gen/IndexGen.v || true
+/venv/bin/python harness/py2coq_dbget.py "${VERIF_REPO:-/repo}/tinyflux" coq/gen/DbGetGen.v || true
 /venv/bin/python harness/py2coq_insert.py "${VERIF_REPO:-/repo}/tinyflux/database.py" coq/gen/InsertGen.v || true
 /venv/bin/python harness/py2coq_read.py "${VERIF_REPO:-/repo}/tinyflux" coq/gen/ReadGen.v || true
 /venv/bin/python harness/py2coq_remove.py "${VERIF_REPO:-/repo}/tinyflux" coq/gen/RemoveGen.v || true
